@@ -82,11 +82,25 @@ def check_case(case):
         got[key] = r
     owner = {c["r"]: c["n"] for c in spec["comps"] if c.get("r")}
     exp_keys = set()
+    from .. import phys
     for ph in phases:
+        rows_ph = {n: obs[(ph, n)] for n in d}
         cons = {}
-        for n in d:
-            r = obs[(ph, n)]
-            ri = r.get("Rail in", "")
+        for n, rec in d.items():
+            r = rows_ph[n]
+            # the supply rail of a row follows from the STRUCTURE: rail of its feeder (a PMux: of its selected input); a Source has none
+            if rec["k"] == "Source":
+                exp_in = ""
+            else:
+                sel = 0
+                if len(rec["parents"]) > 1:
+                    sel = phys.mux_selected(rec, rows_ph)
+                    if sel is None:
+                        sel = None
+                exp_in = None if sel is None else d[rec["parents"][sel]].get("r", "")
+            if exp_in is not None and "Rail in" in r and r["Rail in"] != exp_in:
+                res.v(("C08.rail-in-label", rec["k"]), "phase %r %s: Rail in %r, its feeder's rail is %r" % (ph, n, r["Rail in"], exp_in))
+            ri = exp_in if exp_in is not None else r.get("Rail in", "")
             if ri:
                 cons.setdefault(ri, []).append(r)
         for rail, rows in cons.items():
